@@ -28,7 +28,7 @@ ASSUMPTIONS = ['fields wider than 40 bits with non-zero scale are skipped (float
                'any exception counts as refusal']
 BUDGET = {'quick': 50, 'thorough': 600}
 REQUIRED = {'quick': {'values_bound_checked': 15000, 'out_of_range_refused': 1500, 'fixpoint_own': 400,
-                      'fixpoint_foreign': 60, 'contexts_with_203': 20, 'compressed_values_checked': 4000},
+                      'fixpoint_foreign': 60, 'contexts_with_203': 20, 'compressed_values_checked': 4000, 'string_values_checked': 300},
             'thorough': {'values_bound_checked': 250000, 'out_of_range_refused': 30000, 'fixpoint_own': 8000,
                          'fixpoint_foreign': 1500, 'contexts_with_203': 500, 'compressed_values_checked': 100000}}
 
@@ -195,6 +195,65 @@ def element_contexts(ctx, enc, dec, B, eid, mtv):
                         % (x, raw, w, eid, cname, y), dict(spec, x=x, raw=raw, flat_json=fjo))
 
 
+STR_POOL = ['', 'A', 'AB C', '  lead', 'trail  ', 'x' * 9, 'Z\xfcrich', '\xe9', "it's", '0', ' ', None]
+
+
+def string_roundtrip(ctx, enc, dec):
+    """character values: either refused, or read back padded with blanks to the field width; None reads back as missing"""
+    from mon.compare import td_of
+    rng = ctx.rng
+    # (element, octets): 001015 20, 001019 32, 001011 9, 001015 resized by 208003, 205004
+    ids = [1015, 1019, 1011, 208003, 1015, 208000, 205004, 1001]
+    widths = [20, 32, 9, 3, 4]
+    quota = 40 if ctx.quick else 600
+    for q in range(quota):
+        if not ctx.mine(q):
+            continue
+        nsub = rng.choice([1, 2, 3, 4])
+        comp = bool(q % 2) and nsub > 1
+        rows = []
+        col_same = [rng.random() < 0.25 for _ in widths]
+        first = [rng.choice(STR_POOL) for _ in widths]
+        for k in range(nsub):
+            row = []
+            for j, w in enumerate(widths):
+                v = first[j] if col_same[j] else rng.choice(STR_POOL)
+                if v is not None and len(v) > w:
+                    v = v[:w]        # over-long values are outside the stated behaviour (truncation is C19's business)
+                row.append(v)
+            rows.append(row + [rng.randint(0, 100)])
+        spec = dict(part='strings', ids=ids, compressed=comp, values=rows)
+        ctx.count('string_messages')
+        try:
+            b = enc.process(json.dumps(envelope(ids, nsub, comp, rows))).serialized_bytes
+        except Exception as e:
+            ctx.count('string_message_refused')
+            ctx.add('string_refusals', type(e).__name__)
+            continue
+        try:
+            got = td_of(dec.process(b)).decoded_values_all_subsets
+        except Exception as e:
+            ctx.violate('strings/accepted-but-undecodable:%s/%s' % (type(e).__name__, 'c' if comp else 'u'),
+                        'encoder accepted character values that the decoder cannot read back: %r' % (e,), spec, exc=e)
+            continue
+        for k in range(nsub):
+            for j, w in enumerate(widths):
+                x, y = rows[k][j], got[k][j]
+                ctx.count('string_values_checked')
+                ctx.evaluated(('str', q, k, j), x is None or len(x) < w)
+                if x is None:
+                    ok = y is None or (isinstance(y, bytes) and y and set(y) == {0xff})
+                    what = 'missing'
+                else:
+                    want = x.encode('latin-1').ljust(w)
+                    ok = isinstance(y, bytes) and y.ljust(w) == want and len(y) <= w
+                    what = 'empty' if x == '' else ('short' if len(x) < w else 'full')
+                if not ok:
+                    ctx.violate('strings/readback-differs/%s/%s' % (what, 'c' if comp else 'u'),
+                                'character value %r (field of %d octets, subset %d) read back as %r' % (x, w, k, y), spec)
+                    break
+
+
 def render_json(m):
     from pybufrkit.renderer import FlatJsonRenderer
     from pybufrkit.utils import JSON_DUMPS_KWARGS
@@ -318,6 +377,7 @@ def run(ctx):
             element_contexts(ctx, enc, dec, B, eid, mtv)
             ctx.count('elements')
     fixpoint_own(ctx, enc, dec)
+    string_roundtrip(ctx, enc, dec)
     # foreign: sample corpus
     repo = os.environ.get('VERIF_REPO', '/repo')
     files = sorted(glob.glob(os.path.join(repo, 'tests', 'data', '*.bufr')))
